@@ -2,4 +2,5 @@ package main
 
 // factsAll collects the remaining fact groups (one function per subsystem, added as models grow).
 func factsAll() {
+	factsVesting()
 }
